@@ -33,7 +33,7 @@ Section Combined.
   Proof.
     intros Hd Hz Hk Hc Hr Hs fuel.
     pose proof (prime_ge_2 n Hn) as H2.
-    apply (first_nonce_signature pt add neg O smul G n coords _ GL Hn d z k x y); try assumption; [lia|].
+    apply (first_nonce_signature pt add neg O smul G n coords GL Hn _ d z k x y); try assumption; [lia|].
     rewrite (model_is_spec hmac hlen n ltac:(lia) kfuel d z Hd ltac:(lia)), Hk. reflexivity.
   Qed.
 End Combined.
@@ -46,7 +46,7 @@ Proof.
   intros Hq H1 H2 H. unfold bits2octets, int2octets in H.
   pose proof (n_lt_pow_osz q Hq) as Hb. cbv zeta in Hb.
   pose proof (Z.mod_pos_bound (bits2int q h1) q Hq). pose proof (Z.mod_pos_bound (bits2int q h2) q Hq).
-  apply nonce_input_injective in H; unfold rolen, qlen; try lia. exact H.
+  apply nonce_input_injective in H; unfold rolen, qlen; try lia.
 Qed.
 
 (* two hash values give the same HMAC message under the same key iff their reduced forms agree; for the
@@ -74,6 +74,15 @@ Proof. split; vm_compute; reflexivity. Qed.
 
 Lemma production_hash_size : gen_rfc6979_hash_size = 32%nat.
 Proof. reflexivity. Qed.
+
+Lemma production_constants :
+  qlen_of gen_secp256k1_n = 256 /\ qlen_of gen_secp256r1_n = 256 /\
+  gen_secp256k1_n < gen_secp256k1_p /\ gen_secp256r1_n < gen_secp256r1_p /\
+  gen_secp256k1_p mod 4 = 3 /\ gen_secp256r1_p mod 4 = 3 /\ gen_rfc6979_hash_size = 32%nat.
+Proof.
+  pose proof production_orders_256_bits. pose proof production_order_below_field. pose proof production_field_3_mod_4.
+  pose proof production_hash_size. tauto.
+Qed.
 
 (* on a 256-bit order with a 32-byte hash nothing is shifted: the hash enters the nonce reduced modulo n *)
 Lemma reduced_hash_256 n z : 0 < n -> qlen_of n = 256 -> 0 <= z < 2 ^ 256 ->
@@ -114,4 +123,39 @@ Proof.
   exists (Q :: l), Q. split; [reflexivity|]. split; [left; reflexivity|].
   assert (HQ : Q = hd (pO toy13) (match toy_recover toy13 1 8 1 None with Ret l => l | _ => [] end)) by (rewrite E; reflexivity).
   rewrite HQ. vm_compute. reflexivity.
+Qed.
+
+Lemma secp256k1_reduced_hash z : 0 <= z < 2 ^ 256 ->
+  reduced_hash gen_rfc6979_hash_size gen_secp256k1_n z = z mod gen_secp256k1_n.
+Proof.
+  intros Hz. rewrite production_hash_size. apply reduced_hash_256; [reflexivity|apply production_orders_256_bits|exact Hz].
+Qed.
+
+Lemma refuted_recover_sound :
+  ~ (forall c : curve, curve_ok c = true ->
+     forall (z r s : Z) (yp : option Z) (l : list (EcdsaInst.pt c)) (Q : EcdsaInst.pt c), z <> 0 ->
+       toy_recover c z r s yp = Ret l -> In Q l -> toy_verify c (Some Q) z r s = Ret true).
+Proof.
+  intros H. destruct toy13_recover_unsound as [l [Q [H1 [H2 H3]]]].
+  specialize (H toy13 toy13_ok 1 8 1 None l Q ltac:(discriminate) H1 H2). rewrite H3 in H. discriminate.
+Qed.
+
+Lemma refuted_sign_total :
+  ~ (forall c : curve, curve_ok c = true ->
+     forall d z k : Z, 1 <= d < cn c -> z <> 0 -> 1 <= k < cn c ->
+       exists fuel sig, toy_sign_with_k c fuel d z k = Ret sig).
+Proof.
+  intros H. destruct (H toy13 toy13_ok 2 11 12) as [fuel [sig Hs]]; try (cbn; lia).
+  exact (toy13_sign_never_returns fuel sig Hs).
+Qed.
+
+Lemma toy_curves_satisfy_hypotheses :
+  forall c, In c [toy13; toy11; toy19; toy23] ->
+    group_laws (EcdsaInst.pt c) (padd c) (pneg c) (pO c) (psmul c) (cn c) (pcoords c) /\
+    lift_laws (EcdsaInst.pt c) (pcoords c) (plift_x c) (x_canonical c) /\ prime (cn c).
+Proof.
+  intros c Hc.
+  assert (Hok : curve_ok c = true).
+  { cbn in Hc. destruct Hc as [<-|[<-|[<-|[<-|[]]]]]; [apply toy13_ok|apply toy11_ok|apply toy19_ok|apply toy23_ok]. }
+  split; [apply inst_group_laws; exact Hok|]. split; [apply inst_lift_laws; exact Hok|apply n_prime; exact Hok].
 Qed.
